@@ -811,10 +811,13 @@ class NetConnections:
         return inodes
 
     def get_all_inodes(self):
-        inodes = {}
+        inodes = defaultdict(list)
         for pid in pids():
             try:
-                inodes.update(self.get_proc_inodes(pid))
+                # The same socket can be held by many processes (e.g.
+                # after fork()): keep all the (pid, fd) pairs.
+                for inode, pairs in self.get_proc_inodes(pid).items():
+                    inodes[inode].extend(pairs)
             except (FileNotFoundError, ProcessLookupError, PermissionError):
                 # os.listdir() is gonna raise a lot of access denied
                 # exceptions in case of unprivileged user; that's fine
